@@ -1,6 +1,7 @@
 import Lean.Data.Json
 import KojenVerif.Model.Pipeline
 import KojenVerif.Model.DocCheck
+import KojenVerif.Model.OutStage
 /-
   Line-protocol driver: one JSON object per input line, one JSON object per output line.
   Run with `lake env lean --run Driver/Main.lean`.  The harness pipes the same inputs to the
@@ -116,11 +117,23 @@ def handle (j : Json) : Except String Json := do
     let ls ← getStrs j "lines"
     let (parses, items, nodup) :=
       match parseDoc ls with
-      | some F => (true, F.all (Item.freshOKB (blockKeys strCfg F)), decide (blockKeys strCfg F).Nodup)
+      | some F => (true, F.all Item.freshOKB, decide (blockKeys strCfg F).Nodup)
       | none => (false, false, false)
     pure (Json.mkObj [("fresh", Json.bool (wfFresh ls)), ("disk", Json.bool (wfDisk ls)),
                       ("parses", Json.bool parses), ("items", Json.bool items), ("nodup", Json.bool nodup),
                       ("gentag", Json.bool (ls.any hasGenTagFrom))])
+  | "script" => do
+    let outdir ← getStr j "outdir"
+    let cm ← asPairs (← j.getObjVal? "cm")
+    let ops := script outdir cm
+    let enc : Op → Json
+      | .mkdirs d => Json.arr #[Json.str "mkdirs", jStr d]
+      | .openTmp t => Json.arr #[Json.str "open", jStr t]
+      | .write t s => Json.arr #[Json.str "write", jStr t, jStr s]
+      | .close t => Json.arr #[Json.str "close", jStr t]
+      | .copymode p t => Json.arr #[Json.str "copymode", jStr p, jStr t]
+      | .replace t p => Json.arr #[Json.str "replace", jStr t, jStr p]
+    pure (Json.mkObj [("ops", Json.arr (ops.map enc).toArray)])
   | "split" => do
     let s ← getStr j "s"
     pure (Json.mkObj [("lines", jStrs (splitLines s))])
